@@ -185,16 +185,26 @@ type c06P5 struct {
 func H_C06_positional(v *V) {
 	decl := v.Shape("decl")
 	n := v.Choice(5) // number of plain words supplied
+	term := -1       // a terminator before word index term (PassDoubleDash is set)
+	if v.Choice(2) == 1 {
+		term = v.Choice(n + 1)
+	}
 	var argv []string
 	for i := 0; i < n; i++ {
-		if i == 1 && v.Choice(2) == 1 {
+		if i == term {
+			argv = append(argv, "--")
+		}
+		if i == 1 && term != 0 && term != 1 && v.Choice(2) == 1 {
 			argv = append(argv, "-o")
 		}
 		w := v.String(1)
 		v.Assume(w != "-")
 		argv = append(argv, "w"+w)
 	}
-	p := NewNamedParser("prog", None)
+	if term == n {
+		argv = append(argv, "--")
+	}
+	p := NewNamedParser("prog", PassDoubleDash)
 	var okWant bool
 	var named, notNamed []string
 	switch decl {
